@@ -400,7 +400,8 @@ func genC18DL(rt *rapid.T) c18DL {
 		c.PongInside = rapid.Bool().Draw(rt, "pongInsideWrite")
 	}
 	if strings.Contains(c.Final, "read") && rapid.Bool().Draw(rt, "stallInHeader") {
-		c.StallK = rapid.IntRange(1, 13).Draw(rt, "stallK")
+		// 1..13: inside the header; 101..107: the whole header and 1..7 bytes of the payload (fewer than the 8-byte buffer the final Read asks for)
+		c.StallK = rapid.OneOf(rapid.IntRange(1, 13), rapid.IntRange(1, 13), rapid.IntRange(101, 107)).Draw(rt, "stallK")
 	}
 	return c
 }
@@ -572,7 +573,9 @@ func runC18DL(t fataler, c c18DL) (string, c18DLResult) {
 		_, b0, _ := finishMasking([]ref.Frame{first}, c.Client)
 		_, b1, _ := finishMasking([]ref.Frame{next}, c.Client)
 		k := c.StallK
-		if hdr := len(b1) - 70000; k >= hdr {
+		if hdr := len(b1) - 70000; k > 100 {
+			k = hdr + k - 100 // in the payload
+		} else if k >= hdr {
 			k = hdr - 1
 		}
 		p.sendRaw(append(append([]byte(nil), b0...), b1[:k]...))
